@@ -44,6 +44,17 @@ CHECKS = {
              "checked against the image: opcode, encoded length, operand value (immediate or label value), order, zero gaps, nothing left over.",
         note="Trusted: lib/asmsrc.py check_listing. Label and PADDING lines and the trailing total are outside the property.",
         ref="4/C17"),
+    "C01": dict(
+        technique="runtime monitoring: differential execution against an executable reference semantics (system-call event logs of hexsim under the HEX_VERIF observer vs the reference interpreter's event log), with a well-definedness monitor as the quantifier",
+        engine="xref",
+        text="Exploration: random grammar derivations (globals, val/var/array, procedures and functions with value and array parameters, "
+             "recursion, strings, named and numbered system calls, console and file streams), complete operand-kind x operator x context "
+             "shape matrices, calling-convention matrices (0-10 actuals) and the shipped sources are interpreted by lib/xref.py; every run it "
+             "deems fully defined is compiled by the real xcmp::Driver and executed on hexsim::Processor; per-stream output bytes, input "
+             "bytes consumed and the 32-bit exit value must agree, and the compiler must not reject or crash.",
+        note="Trusted: lib/xref.py (independent parser, interpreter, ill-definedness filter incl. evaluation-order read/write-set conflicts). "
+             "Ill-defined and over-budget runs are discarded and counted; yield below 30% makes the run inconclusive.",
+        ref="4/C01"),
 }
 
 PENDING_REASON = "no check registered yet in this revision of /verif (machinery for it is still being built; see DESIGN.md section 4)"
@@ -76,6 +87,8 @@ def main():
              "kind_free_text": "executable reference model of the Hex ISA with pre-step classifier and access monitors"},
             {"name": "asm-decode", "path": "harness/h_asm.cpp", "serves_properties": ["C04", "C05", "C17"],
              "kind_free_text": "in-process assembler driver (HEX_VERIF layout hook) with image decode-walk"},
+            {"name": "xref", "path": "lib/xref.py", "serves_properties": ["C01"],
+             "kind_free_text": "reference parser and definitional interpreter for X with event log and well-definedness monitor; lib/xgen.py generators; harness/h_x.cpp compile+lock-step runner"},
             {"name": "buildcache", "path": "lib/common.py", "serves_properties": sorted(CHECKS),
              "kind_free_text": "content-hash build cache, fork-per-case runner, verdict/evidence/known-finding plumbing"},
         ],
